@@ -71,7 +71,9 @@ _P["level_text"] += (
     "360·(E + A3c), the reduced difference by 360·A3c), genpos_zero_arc, and genpos_unroll_within_half_turn / xgenpos_unroll_within_half_turn: the "
     "unrolled spherical longitude as coded differs from E·σ12 by less than π for every σ12 of any number of circuits (the two wrapped atan2 "
     "differences cancel each other's jumps: ω12 = E(σ12 + δ(σ2) − δ(σ1)) with |δ| < π/2, lemma atan2_scale_bound over Complex.arg) — so the "
-    "unrolled value is the continuous branch and lon2 − lon1 counts the number and sense of circuits. Not proved: the kernel contract for the real "
+    "unrolled value is the continuous branch and lon2 − lon1 counts the number and sense of circuits; (iii) atan2d_range, direct_ranges, xdirect_ranges: "
+    "the modelled Math::atan2d returns an angle in [−180, 180] (in [−90, 90] for a non-negative second argument), hence azi2 ∈ [−180, 180] and "
+    "lat2 ∈ [−90, 90] for both line models (ℝ; the normalisation of the reduced lon2 is C16's AngNormalize theorem). Not proved: the kernel contract for the real "
     "EllipticFunction (closure oracle only); the ellipsoidal correction term of the longitude (I3 / H: series certificates resp. kernel); accuracy figures.")
 _P["level_note"] += "; oracle integrals on Gauss–Legendre panels graded towards the branch points of √(1 + k² sin²σ) (validated against the uniformly refined oracle to 1e-17 relative)"
 _P["technique"] = ("Lean 4 table certificates, exact-real theorems about executable models of the series solver and of the elliptic-integral line "
